@@ -230,12 +230,36 @@ def _run(ctx):
                 continue
             nfo += 1
             key = "file-offset|%s:%s|%s" % (FW, fn.name, s.op)
-            if s.op == "=":
+            amount_node = s.c[1] if s.op == "+=" else None
+            if s.op == "=" and s.c[1].cv is None:
+                # `off = writer->file_offset; ...; writer->file_offset = off + n;` is `+= n` when nothing in
+                # between can store the member (no other store here, no call to a function of the file that does)
+                r = s.c[1].strip_casts()
+                if r.k == "BinaryOperator" and r.op == "+":
+                    from ..canon import info as _linfo
+                    for a_, b_ in ((r.c[0], r.c[1]), (r.c[1], r.c[0])):
+                        x_ = a_.strip_casts()
+                        if x_.k == "DeclRefExpr" and x_.get("dk") == "local":
+                            d0 = _linfo(fn).single_def(x_.get("d"))
+                            d0 = d0.strip_casts() if d0 is not None else None
+                            if d0 is not None and d0.k == "MemberExpr" and d0.name == "file_offset" and \
+                                    lvalue_text(d0) == lvalue_text(tgt):
+                                others = [q for q in fn.body.walk() if is_assign(q) and q is not s and
+                                          q.c[0].strip().k == "MemberExpr" and q.c[0].strip().name == "file_offset" and
+                                          q.c[0].strip().get("rec") == "carquet_writer"]
+                                storers = set(g_.name for g_ in P.funcs_in(FW) if g_.key() != fn.key() and any(
+                                    is_assign(q) and q.c[0].strip().k == "MemberExpr" and q.c[0].strip().name == "file_offset"
+                                    and q.c[0].strip().get("rec") == "carquet_writer"
+                                    for q in g_.body.walk()))
+                                calls_storer = any(c_.callee in storers for c_ in P.inlined(fn, 3).calls())
+                                if not others and not calls_storer:
+                                    amount_node = b_
+            if amount_node is None and s.op == "=":
                 # = 4 right after the magic was written
                 ok = s.c[1].cv == 4 and bool(fn.calls("write_magic")) and fn.cfg.node_dominates(fn.calls("write_magic")[0], s)
                 ctx.ob("R6.offsets", key, P.where(s), "file_offset is set to 4 only after the leading magic was written", ok)
-            elif s.op == "+=":
-                amount = lvalue_text(s.c[1].strip_casts())
+            elif amount_node is not None:
+                amount = lvalue_text(amount_node.strip_casts())
                 # fwrite itself, or a helper of the file that hands that argument to fwrite as the byte count
                 wrappers = {}
                 for g_ in P.funcs_in(FW):
